@@ -69,7 +69,16 @@ func genC19(t *rapid.T) c19Case {
 	kinds := []string{"recv", "recv", "recv", "recv", "replay", "sendcosmos", "sendcosmos", "sendevm", "sendevm", "deliver", "deliver", "deliver", "deliver"}
 	var c c19Case
 	for i := 0; i < n; i++ {
-		c.Ops = append(c.Ops, c19Op{Kind: rapid.SampledFrom(kinds).Draw(t, "kind"), Ch: rapid.IntRange(0, 1).Draw(t, "ch"), Denom: rapid.IntRange(0, 6).Draw(t, "denom"),
+		if rapid.IntRange(0, 9).Draw(t, "roundtrip") == 0 {
+			// a native coin goes out, is acknowledged, and (part of it) comes back
+			ch, d := rapid.IntRange(0, 1).Draw(t, "rch"), rapid.SampledFrom([]int{0, 2}).Draw(t, "rdenom")
+			back := map[int]int{0: 4, 2: 7}[d]
+			c.Ops = append(c.Ops, c19Op{Kind: "sendcosmos", Ch: ch, Denom: d, U: rapid.IntRange(0, 2).Draw(t, "ru"), Amt: rapid.Int64Range(100, 100_000).Draw(t, "ramt")},
+				c19Op{Kind: "deliver", Idx: 99, How: 0, Ch: ch},
+				c19Op{Kind: "recv", Ch: ch, Denom: back, Receiver: rapid.SampledFrom([]int{0, 0, 1, 2, 4}).Draw(t, "rrecv"), Amt: rapid.Int64Range(1, 100_000).Draw(t, "rback"), Memo: rapid.SampledFrom([]int{0, 0, 1}).Draw(t, "rmemo"), Sender: rapid.IntRange(0, 2).Draw(t, "rsender")})
+			continue
+		}
+		c.Ops = append(c.Ops, c19Op{Kind: rapid.SampledFrom(kinds).Draw(t, "kind"), Ch: rapid.IntRange(0, 1).Draw(t, "ch"), Denom: rapid.IntRange(0, 8).Draw(t, "denom"),
 			Receiver: rapid.SampledFrom([]int{0, 0, 0, 1, 2, 2, 3, 4, 4, 4}).Draw(t, "receiver"), Amount: rapid.SampledFrom([]int{0, 0, 0, 0, 1, 2, 3}).Draw(t, "amountKind"), Amt: rapid.Int64Range(1, 100_000).Draw(t, "amt"),
 			Memo: rapid.SampledFrom([]int{0, 0, 0, 1, 1, 2, 3, 4}).Draw(t, "memo"), Sender: rapid.IntRange(0, 2).Draw(t, "sender"), U: rapid.IntRange(0, 2).Draw(t, "u"), Idx: rapid.IntRange(0, 9).Draw(t, "idx"), How: rapid.IntRange(0, 2).Draw(t, "how")})
 	}
@@ -137,7 +146,13 @@ func runC19(c c19Case, rec *ev.Recorder) *Failure {
 		denoms []string
 		erc20  common.Address
 	}
-	toks := []tok{{"FX", []string{fxtypes.DefaultDenom}, wfx}, {"ATOM", []string{atomTrace.IBCDenom()}, atomPair.GetERC20Contract()}, {"OSMO", []string{"osmo", osmoTrace.IBCDenom()}, osmoPair.GetERC20Contract()}}
+	usdtTok := f.Token("USDT")
+	usdtDenoms := []string{usdtTok.Base}
+	for _, chn := range baseChains {
+		usdtDenoms = append(usdtDenoms, usdtTok.Bridge[chn])
+	}
+	nativeDenom := map[string]string{"FX": fxtypes.DefaultDenom, "USDT": usdtTok.Base}
+	toks := []tok{{"USDT", usdtDenoms, usdtTok.ERC20}, {"FX", []string{fxtypes.DefaultDenom}, wfx}, {"ATOM", []string{atomTrace.IBCDenom()}, atomPair.GetERC20Contract()}, {"OSMO", []string{"osmo", osmoTrace.IBCDenom()}, osmoPair.GetERC20Contract()}}
 	accounts := map[string]common.Address{"user 0": f.Users[0].Hex(), "user 1": f.Users[1].Hex(), "user 2": f.Users[2].Hex(), "recorder": recorder, "reverter": reverter}
 	extSenders := []string{"cosmos1qypqxpq9qcrsszg2pvxq6rs0zqg3yyc5lzv7xu", "cosmos1zg69v7yszg69v7yszg69v7yszg69v7ys8xdv96", f.Users[1].Acc().String()}
 	for i, s := range extSenders { // the addresses memo calls are made from are tracked too: nobody funds them
@@ -206,9 +221,16 @@ func runC19(c c19Case, rec *ev.Recorder) *Failure {
 	recvSeq := map[int]uint64{}
 	var inbound []channeltypes.Packet
 	var outs []*c19Out
-	escrowed := map[int]sdkmath.Int{0: sdkmath.ZeroInt(), 1: sdkmath.ZeroInt()} // FX this history escrowed per channel
-	ackedFX := map[int]sdkmath.Int{0: sdkmath.ZeroInt(), 1: sdkmath.ZeroInt()}  // FX delivered to the counterparty
-	returnedFX := map[int]sdkmath.Int{0: sdkmath.ZeroInt(), 1: sdkmath.ZeroInt()}
+	// native coins (FX, usdt) this history escrowed per channel, what acknowledged transfers delivered to the
+	// counterparty, and what came back
+	escrowed, ackedFX, returnedFX := map[string]sdkmath.Int{}, map[string]sdkmath.Int{}, map[string]sdkmath.Int{}
+	for i := 0; i < 2; i++ {
+		for name := range nativeDenom {
+			k := fmt.Sprintf("%d/%s", i, name)
+			escrowed[k], ackedFX[k], returnedFX[k] = sdkmath.ZeroInt(), sdkmath.ZeroInt(), sdkmath.ZeroInt()
+		}
+	}
+	ek := func(ci int, name string) string { return fmt.Sprintf("%d/%s", ci, name) }
 	relationKeys := func() int {
 		n := 0
 		it := ctx.KVStore(f.App.GetKey(erc20types.StoreKey)).Iterator(erc20types.KeyPrefixIBCTransfer, append(append([]byte{}, erc20types.KeyPrefixIBCTransfer...), 0xff))
@@ -228,7 +250,9 @@ func runC19(c c19Case, rec *ev.Recorder) *Failure {
 			// denomination
 			var denom, tokName string
 			retFX, beyond := false, false
-			switch op.Denom % 7 {
+			switch op.Denom % 9 {
+			case 7, 8:
+				denom, tokName, retFX = ch.CPPort+"/"+ch.CPChannel+"/"+usdtTok.Base, "USDT", true
 			case 0, 1:
 				denom, tokName = "uatom", "ATOM"
 				if ci != 0 {
@@ -250,8 +274,8 @@ func runC19(c c19Case, rec *ev.Recorder) *Failure {
 			if retFX {
 				// the counterparty can only send back FX it received: transfers of this history that were
 				// acknowledged as successful, minus what already came back. Anything more must be refused.
-				avail := ackedFX[ci].Sub(returnedFX[ci])
-				if op.Denom%7 == 4 {
+				avail := ackedFX[ek(ci, tokName)].Sub(returnedFX[ek(ci, tokName)])
+				if op.Denom%9 != 5 {
 					if !avail.IsPositive() {
 						break
 					}
@@ -260,7 +284,7 @@ func runC19(c c19Case, rec *ev.Recorder) *Failure {
 					}
 					op.Amount = 0
 				} else {
-					esc := f.App.BankKeeper.GetBalance(ctx, transfertypes.GetEscrowAddress(ch.Port, ch.Channel), fxtypes.DefaultDenom).Amount
+					esc := f.App.BankKeeper.GetBalance(ctx, transfertypes.GetEscrowAddress(ch.Port, ch.Channel), nativeDenom[tokName]).Amount
 					amount = esc.AddRaw(op.Amt).String()
 					beyond = true
 					op.Amount = 0
@@ -344,7 +368,7 @@ func runC19(c c19Case, rec *ev.Recorder) *Failure {
 				return failf("C19/credited-unknown", "%s: success acknowledgement for receiver %q amount %q denomination %q (registered token: %v)", desc, recvStr, amount, denom, tk != nil)
 			}
 			want := map[string][2]*big.Int{}
-			if retFX {
+			if retFX && tokName == "FX" {
 				want[recvName+"/FX"] = [2]*big.Int{amt, nil} // the native coin stays a coin
 			} else {
 				want[recvName+"/"+tk.name] = [2]*big.Int{nil, amt}
@@ -364,11 +388,11 @@ func runC19(c c19Case, rec *ev.Recorder) *Failure {
 			}
 			if retFX {
 				if beyond {
-					return failf("C19/unescrowed-more-than-escrowed", "%s: %s returning FX were released although the escrow of %s held less", desc, amount, ch.Channel)
+					return failf("C19/unescrowed-more-than-escrowed", "%s: %s returning %s were released although the escrow of %s held less", desc, amount, tokName, ch.Channel)
 				}
-				escrowed[ci] = escrowed[ci].Sub(sdkmath.NewIntFromBigInt(amt))
-				returnedFX[ci] = returnedFX[ci].Add(sdkmath.NewIntFromBigInt(amt))
-				labels["recv-returning-fx"] = true
+				escrowed[ek(ci, tokName)] = escrowed[ek(ci, tokName)].Sub(sdkmath.NewIntFromBigInt(amt))
+				returnedFX[ek(ci, tokName)] = returnedFX[ek(ci, tokName)].Add(sdkmath.NewIntFromBigInt(amt))
+				labels["recv-returning:"+tokName] = true
 			}
 			labels["recv-credited"] = true
 			labels["recv-credited:"+tk.name] = true
@@ -417,6 +441,9 @@ func runC19(c c19Case, rec *ev.Recorder) *Failure {
 			sentTimeout := timeout
 			if op.Kind == "sendcosmos" {
 				denom, name := fxtypes.DefaultDenom, "FX"
+				if op.Denom%3 == 2 {
+					denom, name = usdtTok.Base, "USDT"
+				}
 				if op.Denom%3 == 1 {
 					denom, name = atomTrace.IBCDenom(), "ATOM" // only if the user holds voucher coins (after converting ERC-20 back)
 					f.RunMsg(ctx, &erc20types.MsgConvertERC20{ContractAddress: atomPair.Erc20Address, Amount: amt, Receiver: acc.Acc().String(), Sender: acc.Hex().String()})
@@ -487,8 +514,8 @@ func runC19(c c19Case, rec *ev.Recorder) *Failure {
 			}
 			o.Packet, o.State = p, "inflight"
 			outs = append(outs, o)
-			if o.Token == "FX" {
-				escrowed[ci] = escrowed[ci].Add(amt)
+			if _, native := nativeDenom[o.Token]; native {
+				escrowed[ek(ci, o.Token)] = escrowed[ek(ci, o.Token)].Add(amt)
 			}
 			hasRel := ctx.KVStore(f.App.GetKey(erc20types.StoreKey)).Has(erc20types.GetIBCTransferKey(ch.Channel, seq))
 			if hasRel != (o.Form == "erc20") {
@@ -500,6 +527,9 @@ func runC19(c c19Case, rec *ev.Recorder) *Failure {
 				break
 			}
 			o := outs[op.Idx%len(outs)]
+			if op.Idx == 99 {
+				o = outs[len(outs)-1]
+			}
 			who := fmt.Sprintf("user %d/%s", o.From, o.Token)
 			before := snapshot()
 			var dl sim.IBCDelivery
@@ -538,8 +568,8 @@ func runC19(c c19Case, rec *ev.Recorder) *Failure {
 			want := map[string][2]*big.Int{}
 			if op.How%3 == 0 {
 				o.State = "acked"
-				if o.Token == "FX" {
-					ackedFX[o.Ch] = ackedFX[o.Ch].Add(o.Amount)
+				if _, native := nativeDenom[o.Token]; native {
+					ackedFX[ek(o.Ch, o.Token)] = ackedFX[ek(o.Ch, o.Token)].Add(o.Amount)
 				}
 			} else {
 				// refunded exactly once, in the form it was sent in
@@ -549,8 +579,8 @@ func runC19(c c19Case, rec *ev.Recorder) *Failure {
 					want[who] = [2]*big.Int{o.Amount.BigInt(), nil}
 				}
 				o.State = map[int]string{1: "failed", 2: "timedout"}[op.How%3]
-				if o.Token == "FX" {
-					escrowed[o.Ch] = escrowed[o.Ch].Sub(o.Amount)
+				if _, native := nativeDenom[o.Token]; native {
+					escrowed[ek(o.Ch, o.Token)] = escrowed[ek(o.Ch, o.Token)].Sub(o.Amount)
 				}
 				labels["refund:"+o.Form] = true
 			}
@@ -569,9 +599,11 @@ func runC19(c c19Case, rec *ev.Recorder) *Failure {
 		}
 		// the escrow accounts hold exactly what this history escrowed
 		for i, chn := range chans {
-			esc := f.App.BankKeeper.GetBalance(ctx, transfertypes.GetEscrowAddress(chn.Port, chn.Channel), fxtypes.DefaultDenom).Amount
-			if !esc.Equal(escrowed[i]) {
-				return failf("C19/escrow-balance", "%s: the escrow of %s holds %s FX; sends minus refunds minus returns of this history are %s", desc, chn.Channel, esc, escrowed[i])
+			for name, d := range nativeDenom {
+				esc := f.App.BankKeeper.GetBalance(ctx, transfertypes.GetEscrowAddress(chn.Port, chn.Channel), d).Amount
+				if !esc.Equal(escrowed[ek(i, name)]) {
+					return failf("C19/escrow-balance", "%s: the escrow of %s holds %s %s; sends minus refunds minus returns of this history are %s", desc, chn.Channel, esc, name, escrowed[ek(i, name)])
+				}
 			}
 		}
 	}
